@@ -44,6 +44,8 @@ REPLACEMENTS = ["(", ")", "[", "]", "{", "}", ":", ",", ".", "=", "==", "->", "+
                 "pass", "None", "x", "1", "'s'", "...", ";", "|", "~", ":=", "match", "case", "type", "with", "as",
                 "try", "except", "finally", "global", "del", "assert", "raise", "while", "break", "continue", "!", "$", "?"]
 OPEN, CLOSE = "([{", ")]}"
+BIN_OPS = ["+", "-", "*", "/", "//", "%", "**", "@", "<<", ">>", "&", "|", "^"]
+CMP_OPS = ["<", "<=", "==", "!=", ">", ">="]
 
 
 def _tokens(src: str):
@@ -64,9 +66,19 @@ def _offsets(src: str) -> list[int]:
     return offs
 
 
-def corrupt(src: str, rng, k: int) -> list[tuple[str, str]]:
-    """Up to k single-token corruptions of src: (kind, new source)."""
+def _splice(src: str, a: int, b: int, r: str) -> str:
+    """Replace src[a:b] by the token r, keeping it a separate token."""
+    left = " " if a > 0 and r[:1] and (src[a - 1].isalnum() or src[a - 1] == "_") and (r[0].isalnum() or r[0] in "_'\"") else ""
+    right = " " if b < len(src) and r[-1:] and (src[b].isalnum() or src[b] in "_'\"") and (r[-1].isalnum() or r[-1] == "_") else ""
+    return src[:a] + left + r + right + src[b:]
+
+
+def corrupt(src: str, rng, k: int, skip_lines: int = 0) -> list[tuple[str, str]]:
+    """Up to k single-token corruptions of src: (kind, new source).  Tokens on the first `skip_lines` lines are
+    left alone (the fixed preamble of generated programs)."""
     toks = _tokens(src)
+    if toks is not None:
+        toks = [t for t in toks if t.start[0] > skip_lines]
     lines = src.split("\n")
     out: list[tuple[str, str]] = []
     offs = _offsets(src)
@@ -74,13 +86,14 @@ def corrupt(src: str, rng, k: int) -> list[tuple[str, str]]:
     def span(t):
         return offs[t.start[0] - 1] + t.start[1], offs[t.end[0] - 1] + t.end[1]
 
-    kinds = ["delete", "duplicate", "replace", "replace-sibling", "unbalance", "indent", "swap"]
+    kinds = ["delete", "duplicate", "replace", "replace-sibling", "replace-same-kind", "replace-same-kind", "unbalance",
+             "indent", "swap"]
     tries = 0
     while len(out) < k and tries < 6 * k:
         tries += 1
         kind = rng.choice(kinds)
         if kind == "indent" or not toks:
-            cand = [i for i, l in enumerate(lines) if l.strip()]
+            cand = [i for i, l in enumerate(lines) if l.strip() and i >= skip_lines]
             if not cand:
                 break
             i = rng.choice(cand)
@@ -104,11 +117,31 @@ def corrupt(src: str, rng, k: int) -> list[tuple[str, str]]:
             elif kind == "duplicate":
                 new = src[:b] + " " + t.string + src[b:]
             elif kind == "replace":
-                r = rng.choice(REPLACEMENTS)
-                new = src[:a] + r + src[b:]
+                new = _splice(src, a, b, rng.choice(REPLACEMENTS))
             elif kind == "replace-sibling":
-                r = rng.choice(toks).string
-                new = src[:a] + r + src[b:]
+                new = _splice(src, a, b, rng.choice(toks).string)
+            elif kind == "replace-same-kind":
+                # a token of the same lexical class: mostly keeps the program parsable, moves the diagnostics
+                if t.type == tokenize.NAME and not keyword.iskeyword(t.string):
+                    pool_ = [x.string for x in toks if x.type == tokenize.NAME and not keyword.iskeyword(x.string)] + ["undefined_zz", "int", "str"]
+                elif t.type == tokenize.OP and t.string in BIN_OPS:
+                    pool_ = BIN_OPS
+                elif t.type == tokenize.OP and t.string in CMP_OPS:
+                    pool_ = CMP_OPS
+                elif t.type == tokenize.NUMBER:
+                    pool_ = ["0", "1.5", "'s'", "None", "2j", "b'b'"]
+                elif t.type == tokenize.STRING:
+                    pool_ = ["0", "'é'", "''", "b''", "None", "f'{1}'"]
+                elif t.type == tokenize.NAME:
+                    pool_ = {"and": ["or"], "or": ["and"], "is": ["in"], "in": ["is"], "True": ["None"], "False": ["None"],
+                             "None": ["0"], "return": ["yield"], "break": ["continue"], "continue": ["break"], "pass": ["..."],
+                             "yield": ["return"]}.get(t.string, [])
+                else:
+                    pool_ = []
+                pool_ = [x for x in pool_ if x != t.string]
+                if not pool_:
+                    continue
+                new = _splice(src, a, b, rng.choice(pool_))
             elif kind == "swap":
                 j = toks.index(t)
                 if j + 1 >= len(toks):
